@@ -28,6 +28,8 @@ pub mod simple_implementations;
 pub mod token;
 pub mod traits;
 pub mod version_sync;
+#[cfg(zipora_verif)]
+pub mod verif_sched;
 pub mod dawg;
 
 // Core ZiporaTrie implementation
